@@ -10,6 +10,7 @@ open Martian.Props.C20
 #print axioms resolved_under_root
 #print axioms resolved_bytes_under_root
 #print axioms answer_follows_current_file
+#print axioms mapping_is_exact_key_only
 #print axioms atoi_within_int64
 #print axioms accepted_range_arithmetic_is_exact
 #print axioms facts_both_modifiers_same_range_loop
